@@ -855,3 +855,19 @@ def valstack_writers(P, res):
                     "skipping the arguments of a call makes the call pop an empty value stack and the eval thread panics",
                     f.loc(f.blocks[pb]["term"].get("fn_span")))
     res.floor("SKIP-BALANCE", "exprs_to_eval.pop() in handle_run_request", len(pops), 1)
+
+
+def stale_rows(ctx, layers):
+    """residue rows of functions in these layers that match no current site (informational)."""
+    P = ctx.P
+    LAYERS = json.load(open(os.path.join(VERIF, "tables", "layers.json")))
+    roots = [r for l in layers for r in LAYERS[l]["roots"]]
+    reach, inv = inventory(P, roots)
+    live = {site_key(P, f, s) for f, s in inv if not s.discharged}
+    rows = load_residue()
+    out = []
+    for k in rows:
+        fn = k.split(" # ", 1)[0]
+        if fn in reach and k not in live and " # overlap # " not in k:
+            out.append(k)
+    return out
